@@ -13,6 +13,8 @@ type Evaluator struct {
 	fset   *token.FileSet
 	expr   ast.Expr
 	subst  map[string]string
+	locals map[string]ast.Expr
+	depth  int
 	GoExpr string
 }
 
@@ -30,10 +32,13 @@ func NewEvaluator(repo string, s Site) (*Evaluator, error) {
 	if err != nil {
 		return nil, err
 	}
-	return &Evaluator{fset: fset, expr: e, subst: s.Subst, GoExpr: printNode(fset, e)}, nil
+	return &Evaluator{fset: fset, expr: e, subst: s.Subst, locals: localDefs(fd.Body), GoExpr: printNode(fset, e)}, nil
 }
 
-func (ev *Evaluator) Eval(env map[string]int64) (int64, error) { return ev.eval(ev.expr, env) }
+func (ev *Evaluator) Eval(env map[string]int64) (int64, error) {
+	ev.depth = 0
+	return ev.eval(ev.expr, env)
+}
 
 func (ev *Evaluator) eval(e ast.Expr, env map[string]int64) (int64, error) {
 	if v, ok := ev.subst[printNode(ev.fset, e)]; ok {
@@ -44,6 +49,14 @@ func (ev *Evaluator) eval(e ast.Expr, env map[string]int64) (int64, error) {
 		return x, nil
 	}
 	switch x := e.(type) {
+	case *ast.Ident:
+		if d, ok := ev.locals[x.Name]; ok {
+			ev.depth++
+			if ev.depth > 1000 {
+				return 0, fmt.Errorf("local definitions nested too deeply")
+			}
+			return ev.eval(d, env)
+		}
 	case *ast.ParenExpr:
 		return ev.eval(x.X, env)
 	case *ast.BasicLit:
